@@ -1,5 +1,6 @@
 //! Dispatch from property ids to engines.
 pub mod codegen;
+pub mod e2e;
 pub mod heapbfs;
 pub mod selftest;
 pub mod subst;
@@ -11,6 +12,7 @@ use std::time::Instant;
 
 pub fn run_worker(check: &str, ctx: &WorkerCtx, _extra: &[String]) -> Report {
     match check {
+        "C01" => e2e::worker(ctx),
         "C06" => codegen::worker(ctx, Arch::X86, codegen::Mode::Semantics),
         "C07" => codegen::worker(ctx, Arch::A64, codegen::Mode::Semantics),
         "C08" => codegen::worker(ctx, Arch::Rv64, codegen::Mode::Semantics),
@@ -178,6 +180,20 @@ pub fn run_check(id: &str, tier: Tier) -> i32 {
             };
             finish(&meta, tier, started, rep, Map::new())
         }
+        "C01" => {
+            let rep = run_sharded(id, tier, &[]);
+            let meta = CheckMeta {
+                property: "C01",
+                level: "model_checking",
+                rule: "bounded-exhaustive enumeration of Fun programs (FUN-S: every well-typed main body up to a node bound over a small alphabet; FUN-SHADOW: binder kind x inner name x outer name x continuation kind; FUN-LIVE: 0..20 live variables x kind pattern x construct; FUN-LIT/OPS/CMP: boundary literals x placements, 5 operators, 6 comparisons x 5 forms; FUN-DATA: constructor arity 0..8, clause rotations; FUN-CTRL; codata; generated-name lookalikes) x argument tuples. Every program goes through the real parser, checker, translation, focusing, shrinking, linearization and x86-64 code generator; the printed file is assembled by GNU as, linked with the repository's driver template and io.c, and run as a process; stdout bytes and exit status are compared with the reference machine R-FUN. Distinct = distinct source texts that produced an executable.".into(),
+                assumptions: vec![
+                    "GNU as after a syntax-only NASM->GAS transliteration stands in for yasm (not installed)".into(),
+                    "R-FUN is the reading of the source semantics stated in the property (validated on the repository's examples by `vcheck selftest`)".into(),
+                    "states = statement boundaries of the emulated twin run; transitions = reference machine steps".into(),
+                ],
+            };
+            finish(&meta, tier, started, rep, Map::new())
+        }
         "C09" | "C10" => {
             let rep = run_sharded(id, tier, &[]);
             let meta = heap_meta(if id == "C09" { "C09" } else { "C10" });
@@ -235,6 +251,21 @@ pub fn replay(id: &str, path: &str) -> i32 {
             }
             None => {
                 eprintln!("case not found");
+                2
+            }
+        },
+        Some("fun") => match e2e::replay(case) {
+            Ok(Some(msg)) => {
+                println!("[{id}] replay: {msg}");
+                println!("VIOLATION property={id} replay={path}");
+                1
+            }
+            Ok(None) => {
+                println!("[{id}] replay: executable behaves like the source");
+                0
+            }
+            Err(e) => {
+                eprintln!("replay failed: {e}");
                 2
             }
         },
